@@ -180,6 +180,9 @@ func runC16(tier string, seed uint64) {
 			}
 		case w < 24:
 			l = logical{method: "PUT", bucket: b, key: k, body: []byte(fmt.Sprintf("body-%d", i)), hdr: [][2]string{{"X-Amz-Meta-I", strconv.Itoa(i)}}}
+			if rng.Intn(4) == 0 {
+				l.body = []byte{} // an empty object is addressed like any other, however many slashes follow its key
+			}
 		case w < 36:
 			l = logical{method: "GET", bucket: b, key: k}
 		case w < 40:
